@@ -268,6 +268,9 @@ def levels(tier: str) -> list[dict]:
     for depth in ([0, 1] if q else [0, 1, 2]):
         L.append(dict(label=f'raw/depth={depth}/val', module=M, fn='h_raw', kwargs=dict(depth=depth, prof='val'), budget_s=bud, required=depth <= 1, twin=(depth == 1)))
     L.append(dict(label='raw/depth=1/partial-instantiate-values', module=M, fn='h_raw', kwargs=dict(depth=1, prof='val2'), budget_s=bud, required=True, twin=False))
+    # whole modules through ProofExp.serialize, plain and optimised (Counting and Memoizing(Serializing) share the claim list)
+    for shape, nax in ((0, 1), (1, 1)):
+        L.append(dict(label=f'module/imports={shape},axioms={nax},size<=2,claims<=2', module='vf.props.c03', fn='h_module', kwargs=dict(shape=shape, nax=nax, nclaims=2, prof='ax', size=2), budget_s=bud, required=True, twin=False))
     names = [n for n in (QUICK_LEMMAS if q else sorted(c10.BIND)) if n in c10.BIND and (q or len(c10.INV[n]['letters']) <= 3)]
     for n in names:
         L.append(dict(label=f'lemma/{n}/args=1', module=M, fn='h_lemma', kwargs=dict(name=n), budget_s=bud, required=True, twin=False, small=True))
@@ -283,4 +286,9 @@ def run(tier: str) -> dict:
     res['levels'].extend(res2['levels'])
     res['vacuous'].extend(res2['vacuous'])
     res['validated_traces'] += res2['validated_traces']
+    from . import c03
+
+    dm = c03.concrete_memory_limit()
+    res['direct_violations'] = dm
+    res['samples'] = [{'concrete_test': 'memoisation plan around the 256-slot limit, plain vs optimised pipeline', 'violations': len(dm)}]
     return res
